@@ -93,6 +93,26 @@ func main() {
 		fmt.Printf("functions acquiring a lock: %d\n", nAcq)
 		return
 	}
+	if os.Getenv("LC_ERRPOL") != "" {
+		w, err := LoadWorld(*repo, modEngine, modAgg)
+		if err != nil {
+			fmt.Fprintln(os.Stderr, err)
+			os.Exit(2)
+		}
+		n, nf := 0, 0
+		for _, f := range w.lunarFns {
+			if f.Origin() != nil {
+				continue
+			}
+			nf++
+			for _, m := range errPolarity(f) {
+				n++
+				fmt.Printf("%s %s: %s (%s)\n", w.Pos(m.At.Pos()), shortFn(fnID(outermost(f))), m.Kind, trunc(Path(m.Err), 60))
+			}
+		}
+		fmt.Printf("functions=%d misuses=%d\n", nf, n)
+		return
+	}
 	if os.Getenv("LC_GBINFER") != "" {
 		w, err := LoadWorld(*repo, modEngine, modAgg)
 		if err != nil {
@@ -196,6 +216,7 @@ func runProperty(p *Property, tier, repo, verif string, seed int64) (code int) {
 	}
 	r.W = w
 	p.Run(w, r)
+	checkErrorPolarity(w, r)
 	return r.Finish(verif)
 }
 
